@@ -297,6 +297,8 @@ CASES = {
     'grid2d_4': lambda: _grid_cases(2, 4),
     'grid3d_3': lambda: _grid_cases(3, 3),
     'grid3d_q': lambda: [c for c in _grid_cases(3, 3) if c[0] in ('n=1x3x2', 'n=2x3x1', 'n=2x1x3', 'n=1x1x1', 'n=2x2x2', 'n=3x1x1')],
+    # thorough: every size triple up to 3 per axis plus a few larger ones (measured: 4x4x4 takes 37 min and 6 GB, 8x2x1 7 min)
+    'grid3d_t': lambda: _grid_cases(3, 3) + [('n=' + 'x'.join(map(str, c)), ['CN%d=%d' % (i, v) for i, v in enumerate(c)]) for c in ((4, 4, 4), (8, 2, 1), (2, 8, 1), (1, 2, 8), (5, 3, 2))],
     'grid3d_4': lambda: _grid_cases(3, 4),
     'grid3d_8': lambda: _grid_cases(3, 8),
 }
